@@ -11,6 +11,8 @@ open Lean Pywbem.Proto Pywbem.Model
         ITEM = null | {"s":S} | {"c":S} | {"l":S}
   {"op":"fix","tok":S}                                              -> {"ok":S} | {"exc":..}
   {"op":"lexstr","text":S} / {"op":"lexchar","text":S}              -> {"tok":S,"rest":n} | {"tok":null}
+  {"op":"lexnum","text":S}   -> {"tok":"float","text":S,"rest":n} | {"tok":"int","v":"dec","rest":n} | {"tok":"error",..} | {"tok":null}
+  {"op":"intstr","v":"dec"}  -> {"out":S}
   {"op":"strlist","text":S}                                         -> {"lex":null} | {"ok":S} | {"exc":..}
   {"op":"roundtrip", mofstr arguments}                              -> mofstr, then strlist on its output -/
 
@@ -66,6 +68,13 @@ def handle (j : Json) : Json :=
     match MofLex.lexCharValue (getNats j "text") with
     | some (t, r) => Json.mkObj [("tok", natsToJson t), ("rest", (r.length : Nat))]
     | none => Json.mkObj [("tok", Json.null)]
+  | some "lexnum" =>
+    match MofLex.lexNumber (getNats j "text") with
+    | none => Json.mkObj [("tok", Json.null)]
+    | some (.float t, r) => Json.mkObj [("tok", "float"), ("text", natsToJson t), ("rest", (r.length : Nat))]
+    | some (.int v, r) => Json.mkObj [("tok", "int"), ("v", intToJson v), ("rest", (r.length : Nat))]
+    | some (.error t, r) => Json.mkObj [("tok", "error"), ("text", natsToJson t), ("rest", (r.length : Nat))]
+  | some "intstr" => Json.mkObj [("out", natsToJson (MofLex.intStr ((getInt j "v").getD 0)))]
   | some "strlist" =>
     match MofLex.compileStringList (getNats j "text") with
     | none => Json.mkObj [("lex", Json.null)]
